@@ -67,13 +67,30 @@ def main(pid, tier, seed, replay):
         src = open(os.path.join(V.COQ, cfg["propfile"])).read()
         obligations = len(re.findall(r"^\s*(?:Theorem|Corollary)\s+", src, flags=re.M))
 
-    # 4. property-specific static obligations (facts disciplines etc.)
+    # 4. property-specific static obligations generated from the current source.
+    #    `static`   : PRIMARY obligations (lock/atomic disciplines, action order, handler shapes): what they establish cannot be
+    #                 shown dynamically, so a failure is a broken proof obligation (=> no-failing-input-found unless an input is found).
+    #    `secondary`: ADDITIONAL ties (regenerated model by translation, source constant tables). The property is already shown by
+    #                 the primary route (theorems about the hand model + correspondence on pi); when only a secondary tie fails and
+    #                 the correspondence agrees on everything explored, that is recorded (evidence, NOTE line) but is not a violation.
     for fn in cfg.get("static", []):
         o, d, probs, c = fn(tier)
         obligations += o
         discharged += d
         problems += probs
         cov.update(c)
+    sec_obl = sec_dis = 0
+    sec_problems = []
+    for fn in cfg.get("secondary", []):
+        o, d, probs, c = fn(tier)
+        sec_obl += o
+        sec_dis += d
+        sec_problems += probs
+        cov.update(c)
+    cov["secondary_obligations"] = sec_obl
+    cov["secondary_discharged"] = sec_dis
+    if sec_problems:
+        cov["secondary_ties_broken"] = [t for _, t, _ in sec_problems]
 
     # 5. correspondence: harness on the real code, judged by the extracted Coq check function
     tie = {}
@@ -89,6 +106,14 @@ def main(pid, tier, seed, replay):
         cov["coqchk"] = {"rc": rc, "wall_s": round(dt, 1), "tail": out.strip().splitlines()[-12:]}
         if rc != 0:
             problems.append(("proof", "coqchk rejected the compiled property closure", {"broken": "coqchk", "tail": out[-2000:]}))
+
+    # a broken secondary tie: supporting detail when something else is wrong, a note otherwise
+    if sec_problems:
+        if problems:
+            notes += ["secondary tie also broken: " + t for _, t, _ in sec_problems]
+        else:
+            notes += ["NOTE secondary tie broken (not a violation: primary theorems and the correspondence on pi hold): " + t
+                      for _, t, _ in sec_problems]
 
     # ---- verdict
     known, fixed = V.load_known()
@@ -140,9 +165,12 @@ def main(pid, tier, seed, replay):
         print(l)
     for _, t, _ in (spec + others)[:10]:
         print("  detail:", t[:400])
-    print("%s %s tier=%s seed=%d obligations=%d/%d cases=%s wall=%.1fs" % (
-        pid, "OK" if violations == 0 else "FAIL", tier, seed, discharged, obligations,
-        cov.get("evaluations", "-"), wall))
+    for n in notes:
+        if n.startswith("NOTE "):
+            print("  " + n[:400])
+    print("%s %s tier=%s seed=%d obligations=%d/%d secondary=%d/%d cases=%s drift=%s wall=%.1fs" % (
+        pid, "OK" if violations == 0 else "FAIL", tier, seed, discharged, obligations, sec_dis, sec_obl,
+        cov.get("evaluations", "-"), cov.get("byte_drift", "-"), wall))
     return 0 if violations == 0 else 1
 
 
